@@ -635,7 +635,7 @@ func (c *ctx) run() int {
 					// the crash itself is the finding: do not start further shards
 					stopping = true
 				}
-				cr := crashRec{Shard: spec.Name, Idx: r.idx, TimedOut: r.timedOut, Exit: r.exit, LogTail: tail(r.log, 4000), Recent: r.recent}
+				cr := crashRec{Shard: spec.Name, Idx: r.idx, TimedOut: r.timedOut, Exit: r.exit, LogTail: tail(r.log, 16000), Recent: r.recent}
 				if r.havePay {
 					cr.Payload = base64.StdEncoding.EncodeToString(r.payload)
 				}
@@ -809,6 +809,17 @@ func (c *ctx) merge(plan *ev.Plan, results []shardResult, crashes []crashRec, bi
 				if cr.TimedOut {
 					break // a stall is always the case in flight
 				}
+			}
+			if !found && strings.Contains(cr.LogTail, "WARNING: DATA RACE") && len(cands) > 0 {
+				// the race detector's report is the evidence: a race shows under some schedules only, so a
+				// solo replay that stays quiet does not take it back. The case in flight is kept for the reader.
+				cand := cands[0]
+				cs := map[string]any{"idx": cand.Idx, "payload_b64": base64.StdEncoding.EncodeToString(cand.Payload), "payload_text": string(cand.Payload), "shard": cr.Shard, "note": "reported by the race detector; schedule-dependent"}
+				data, _ := json.Marshal(cs)
+				i := strings.Index(cr.LogTail, "WARNING: DATA RACE")
+				vios = append(vios, ev.Violation{Property: c.id, Engine: c.engine, Kind: plan.ReplayKindCrash, Sig: "data-race", Size: len(cand.Payload),
+					Msg: "the race detector reported a data race while this case (or one just before it) was executing:\n" + tail(cr.LogTail[i:], 3000), Case: data})
+				confirmed, found = true, true
 			}
 			if !found {
 				blocked++
